@@ -71,6 +71,104 @@ def gen_grammar(rng, colliding, deep=False):
     return {'nts': nts, 'rules': rules, 'rprio': rprio, 'tprio': tprio, 'terms': terms}
 
 
+def unit_cycles(g):
+    """simple cycles of unit rules (A: B): [(nonterminals on the cycle, weight)] with weight = sum of the priorities of the rules on
+    it.  Without empty alternatives these are the only way a derivation can repeat a (symbol, span) pair."""
+    edges = {nt: [a[0] for a in alts if len(a) == 1 and a[0] in g['rules']] for nt, alts in g['rules'].items()}
+    out = []
+
+    def walk(start, cur, path):
+        for nxt in edges[cur]:
+            if nxt == start:
+                out.append((tuple(path), sum(g['rprio'].get(x) or 0 for x in path)))
+            elif nxt not in path and nxt > start:          # every cycle is reported once, from its smallest member
+                walk(start, nxt, path + [nxt])
+    for nt in sorted(edges):
+        walk(nt, nt, [nt])
+    return out
+
+
+def gen_grammar_cyc(rng, mode):
+    """a grammar with a CYCLE OF UNIT RULES that can be entered at two places: infinitely many derivations per input.  The weights of
+    all cycles are <= 0 for mode 'normal' (>= 0 for 'invert'), so that the maximum (minimum) over all derivations exists and is attained
+    by a cycle-free derivation."""
+    terms = {'A': 'a', 'B': 'b', 'C': 'c'}
+    for _ in range(200):
+        shape = rng.randrange(3)
+        if shape == 0:
+            nts = ['start', 'n1', 'n2', 'n3']
+            rules = {'start': [['n1'], ['n2']], 'n1': [['n2'], ['A']], 'n2': [['n3'], [rng.choice(['A', 'B'])]], 'n3': [['n1']]}
+        elif shape == 1:
+            nts = ['start', 'n1', 'n2']
+            rules = {'start': [['n1'], ['n2'], ['n1', 'C']], 'n1': [['n2'], ['A']], 'n2': [['n1'], [rng.choice(['A', 'B'])], ['A', 'B']]}
+        else:
+            nts = ['start', 'n1', 'n2', 'n3']
+            rules = {'start': [['n1', 'n3'], ['n2', 'n3'], ['n2']], 'n1': [['n2'], ['A']], 'n2': [['n1'], ['n3'], ['A']], 'n3': [['n2'], ['B'], ['A']]}
+        rprio = {nt: rng.choice([None, -2, -1, -1, 1, 1, 2]) for nt in nts}
+        g = {'nts': nts, 'rules': rules, 'rprio': rprio, 'tprio': {t: 0 for t in terms}, 'terms': terms, 'cyclic': True}
+        ws = [w for _, w in unit_cycles(g)]
+        if not ws:
+            continue
+        if mode == 'normal' and all(w <= 0 for w in ws) or mode == 'invert' and all(w >= 0 for w in ws) or mode is None:
+            return g
+    raise RuntimeError('no admissible weights found')
+
+
+def enumerate_cycle_free(g, text, limit=4000):
+    """all derivation trees of `text` in which no (symbol, span) pair occurs below itself"""
+    terms, rules = g['terms'], g['rules']
+    n = len(text)
+    count = [0]
+
+    def trees(sym, i, j, path):
+        if sym in terms:
+            return [(text[i], sym)] if j == i + 1 and text[i] == terms[sym] else []
+        key = (sym, i, j)
+        if key in path:
+            return []
+        path = path | {key}
+        out = []
+        for ai, syms in enumerate(rules[sym]):
+            for seq in seqs(tuple(syms), i, j, path):
+                out.append(('%s_%d' % (sym, ai),) + seq)
+                count[0] += 1
+                if count[0] > limit:
+                    raise Overflow()
+        return out
+
+    def seqs(syms, i, j, path):
+        if not syms:
+            return [()] if i == j else []
+        first, rest = syms[0], syms[1:]
+        out = []
+        for k in range(i + 1, j - len(rest) + 1):
+            for l in trees(first, i, k, path):
+                for r in seqs(rest, k, j, path):
+                    out.append((l,) + r)
+        return out
+    return trees('start', 0, n, frozenset())
+
+
+def derivation_yield(tree, g, sym='start'):
+    """the text a tree derives if it is a derivation tree of `sym` (cycles allowed), else None"""
+    if len(tree) == 2 and isinstance(tree[1], str) and tree[1] in g['terms'] and not isinstance(tree[0], tuple) and len(tree[0]) == 1:
+        return tree[0] if tree[1] == sym and g['terms'][sym] == tree[0] else None
+    head = tree[0]
+    nt, _, ai = head.rpartition('_')
+    if nt != sym or nt not in g['rules'] or not ai.isdigit() or int(ai) >= len(g['rules'][nt]):
+        return None
+    syms = g['rules'][nt][int(ai)]
+    if len(syms) != len(tree) - 1:
+        return None
+    out = ''
+    for s_, ch in zip(syms, tree[1:]):
+        y = derivation_yield(ch, g, s_)
+        if y is None:
+            return None
+        out += y
+    return out
+
+
 def gen_grammar_emp(rng):
     """strictly layered BNF (nonterminals refer only to later ones: finitely many derivations) in which some rules have a DIRECTLY
     EMPTY alternative (alias <nt>_e) next to alternatives that are nullable through their children, with signed priorities:
